@@ -1446,10 +1446,13 @@ func handleClientMessage(c *webClient, m clientMessage) error {
 				Value:    s,
 			})
 		}
+		c.group = g
 		if redirect := g.Description().Redirect; redirect != "" {
 			// We normally redirect at the HTTP level, but the group
 			// description could have been edited in the meantime.
 			username := c.username
+			// the client has been added to the group, remove it
+			leaveGroup(c)
 			return c.write(clientMessage{
 				Type:     "joined",
 				Kind:     "redirect",
@@ -1458,7 +1461,6 @@ func handleClientMessage(c *webClient, m clientMessage) error {
 				Value:    redirect,
 			})
 		}
-		c.group = g
 	case "request":
 		requested, err := parseRequested(m.Request)
 		if err != nil {
